@@ -13,7 +13,8 @@ COORDS = 'tracklib.core.obs_coords'
 
 DIRS = [(5, 0), (0, 5), (3, 4), (-4, 3), (1, 1), (-2, -7), (0, -3), (0.001, 2), (-6, 0), (7, -1)]
 POLYS = [[(5, 0), (3, 4)], [(3, 4), (-4, 3)], [(5, 0), (0, 0), (3, 4)], [(1, 1), (5, 0), (-2, -7)], [(3, 4), (3, 4)], [(-6, 0), (3, 4), (6, 0)],
-         [(5, 0), (0, 5)], [(3, 4), (0, -3), (5, 0)]]
+         [(5, 0), (0, 5)], [(3, 4), (0, -3), (5, 0)],
+         [(5, 0), (2, -2), (3, 4)], [(-3, 3), (5, 0)], [(1, -1)]]      # legs with dx + dy == 0 (south-east / north-west), alone and inside a polyline
 TOL = 1e-9
 
 
@@ -46,11 +47,11 @@ class C20(Check):
     outside = ['directions outside the catalogue (similarity invariance is an argument, not a proof)', '3-D', 'polylines whose legs all have zero length']
     classes = {'vertical_segment': 'the segment (or a leg of the polyline) is vertical: x1 == x2'}
     budget = {'quick': 200, 'thorough': 1800}
-    engine_opts = {'sqrt_mono': True}     # implied monotonicity facts between the square roots of a path (decides nearest-end comparisons)
+    engine_opts = {'sqrt_mono': True, 'verify_timeout_ms': 30000}     # implied monotonicity facts between the square roots of a path (decides nearest-end comparisons)
 
     def bounds(self, tier):
         return dict(segments='%d catalogue directions x {free query point, query point on the segment, query point at either end}' % len(DIRS),
-                    polylines='%d catalogue polylines of 2-3 legs (quick: the 5 cheapest) (one with a zero-length leg, one with repeated direction, two with a vertical leg) through proj_polyligne and mapOnTrack' % len(POLYS))
+                    polylines='%d catalogue polylines of 2-3 legs (quick: the 5 cheapest) (one with a zero-length leg, one with repeated direction, two with a vertical leg, three with a leg of direction (1,-1)) through proj_polyligne and mapOnTrack' % len(POLYS))
 
     def jobs(self, tier, seed):
         js = []
